@@ -568,6 +568,42 @@ def run(only=None):
         for acc in par.pmap(w_malformed, tasks):
             s.merge(acc)
         s.done()
+    if not only or "many_radios" in only:
+        s = rep.sub("many_radios",
+                    "one linear history with the real handler: 1300 distinct radios register (one data message each, sequence numbers wrapping), every "
+                    "third goes offline again, then the registry holds for each radio the state its last message implies; every message was "
+                    "acknowledged once and every registration answered once")
+        try:
+            impl = RRSDatagramProtocol(port=30001)
+            tr = RecDatagramTransport()
+            impl.connection_made(tr)
+            ips = [bytes([10, 20 + i // 250, i % 250, 1 + (i % 3)]) for i in range(1300)]
+            want = {}
+            for i, ip in enumerate(ips):
+                for op_, state in ((0x03, "Online"),) + (((0x01, "Offline"),) if i % 3 == 0 else ()):
+                    data = hstrp(T_OPT, (i * 2 + op_) & 0xFFFF, OPTS, rrs(op_, ip))
+                    tr.sent = []
+                    impl.datagram_received(data, PEER)
+                    outs = [o for o, _ in tr.sent]
+                    acks = [o for o in outs if is_ack_for(o, data)]
+                    others = [o for o in outs if not is_ack_for(o, data)]
+                    if len(acks) != 1:
+                        s.violation("many_radios:data_not_acknowledged_exactly_once", {"radio_index": i, "acks": len(acks)})
+                    if op_ == 0x03 and (len(others) != 1 or not is_rrs_success_answer(others[0], ip)):
+                        s.violation("many_radios:registration_not_answered_by_one_success_answer", {"radio_index": i})
+                    want[ip_str(ip)] = state
+                s.case(nontrivial=True, calls=1, outcome="radio", sample={"radio": ip_str(ip)} if i == 0 else None)
+            got = dict(registry_view(impl))
+            if got != want:
+                missing = [k for k in want if k not in got]
+                wrong = [k for k in want if k in got and got[k] != want[k]]
+                extra = [k for k in got if k not in want]
+                s.violation("many_radios:registry_differs_from_history", {"missing": len(missing), "wrong_state": len(wrong), "unexpected": len(extra), "radios": len(want),
+                                                                          "first_missing": missing[:2]},
+                            "after many radios registered the registry no longer holds the state implied by each radio's last message")
+        except Exception as e:  # noqa: BLE001
+            s.violation("many_radios:exception:" + exc_sig(e), {}, repr(e))
+        s.done()
     return rep.finish()
 
 
